@@ -36,7 +36,17 @@ pub fn main(tier: Tier, seed: u64) -> i32 {
     for (ci, (n, leader, consts, outs)) in cfgs.iter().enumerate() {
         let (sp, expected) = spec(*n, *leader, consts, outs.clone());
         let pols = vec![make_policies(&sp, comp_id(seed, 1400 + ci as u64))];
-        let base = match run_walk(*n, 1, pols.clone(), Walk { max_steps: 10_000, ..Default::default() }, MsgPolicy::Explicit, crate::exec::mix(seed, 1400 + ci as u64)) {
+      for variant in 0..2usize {
+        // variant 0: default order (all schedules first); variant 1: the leader's validate reaches every
+        // follower before the follower is scheduled (ValidateRequested path)
+        let mut prefer = vec![];
+        if variant == 1 {
+            prefer.push(Ev::Schedule { pol: 0, party: *leader as u8 });
+            for f in (0..*n).filter(|f| f != leader) {
+                prefer.push(Ev::Deliver(crate::srv::RpcKey { pol: 0, from: *leader as u8, to: f as u8, kind: crate::srv::Kind::Validate, occ: 0 }));
+            }
+        }
+        let base = match run_walk(*n, 1, pols.clone(), Walk { prefer, max_steps: 10_000, ..Default::default() }, MsgPolicy::Explicit, crate::exec::mix(seed, 1400 + ci as u64)) {
             Ok(b) => b,
             Err(e) => {
                 rep.machinery(format!("base walk failed: {e}"));
@@ -52,7 +62,9 @@ pub fn main(tier: Tier, seed: u64) -> i32 {
         let mut positions: Vec<usize> = (0..=first_msg.min(len)).collect();
         // during MPC: a few positions (thorough: every 6th)
         let step = if tier.is_thorough() { 6 } else { 25 };
-        positions.extend((first_msg + 1..len).step_by(step));
+        if variant == 0 {
+            positions.extend((first_msg + 1..len).step_by(step));
+        }
         positions.push(len);
         positions.sort();
         positions.dedup();
@@ -64,24 +76,25 @@ pub fn main(tier: Tier, seed: u64) -> i32 {
                     if matches!(cmd, Stray::ScheduleSame | Stray::ScheduleOtherParty(_)) && at <= own_sched {
                         continue;
                     }
-                    jobs.push((ci, party, cmd.clone(), at));
+                    jobs.push((ci * 2 + variant, party, cmd.clone(), at));
                 }
             }
         }
-        bases.push((ci, pols, base, expected));
+        bases.push((ci * 2 + variant, pols.clone(), base, expected));
+      }
     }
     let results = par_map(&jobs, |_, _, (ci, party, cmd, at)| {
         let (_, pols, base, _) = bases.iter().find(|b| b.0 == *ci).unwrap();
-        let (n, _, _, _) = &cfgs[*ci];
+        let (n, _, _, _) = &cfgs[*ci / 2];
         let walk = Walk { injections: vec![(*at, Ev::Stray { pol: 0, party: *party as u8, cmd: cmd.clone() })], prefer: base.history.clone(), max_steps: 10_000, ..Default::default() };
-        run_walk(*n, 1, pols.clone(), walk, MsgPolicy::Explicit, crate::exec::mix(seed, 1400 + *ci as u64))
+        run_walk(*n, 1, pols.clone(), walk, MsgPolicy::Explicit, crate::exec::mix(seed, 1400 + (*ci / 2) as u64))
     });
     let mut rejected = 0u64;
     let mut accepted = 0u64;
     let mut unanswered = 0u64;
     let mut distinct = std::collections::HashSet::new();
     for ((ci, party, cmd, at), r) in jobs.iter().zip(results.iter()) {
-        let (n, leader, consts, outs) = &cfgs[*ci];
+        let (n, leader, consts, outs) = &cfgs[*ci / 2];
         let expected = bases.iter().find(|b| b.0 == *ci).map(|b| b.3).unwrap_or(false);
         let r = match r {
             Ok(r) => r,
